@@ -64,6 +64,13 @@ class FsmTracker(TagTracker):
                     l.get("t") in INT_TYPES and r.get("k") == "int" and ((c["op"] == "==") == truth):
                 state = dict(state)
                 state[("E", "param:%s" % l["n"])] = r["v"]
+        # `client authentication not requested yet in this handshake` was tested on this edge (the arm that admits a
+        # CertificateRequest sets the bit before it moves hsState, so the value at the store is of no use)
+        from sa import cfgutil as _cu
+        ca = "(ssl->flags & %d)" % self.prog.const("SSL_FLAGS_CLIENT_AUTH")
+        if term.get("c") is not None and any(txt == ca and not tr_ for (txt, tr_, nd) in _cu._cond_atoms(term["c"], truth)):
+            state = dict(state)
+            state[("E", "client_auth_clear")] = 1
         return state
 
 
@@ -363,6 +370,8 @@ def run(tier):
             return av.bit_known(fl, F("SSL_FLAGS_PSK_CIPHER")) == 1
         if cn == "ticket_ext_acknowledged":
             return av.is_const(state.get(K_STS, av.TOP)) == F("SESS_TICKET_STATE_RECVD_EXT")
+        if cn == "client_auth_not_requested_yet":
+            return state.get(("E", "client_auth_clear")) == 1
         if cn == "no_cookie":
             return av.is_const(state.get(K_COOKIE, av.TOP)) == 0
         return False
@@ -618,5 +627,123 @@ def run(tier):
                                          file=fnj.relfile, line=lnj)
                         res.instance("C06.R1j", "%s:%s HelloRetryRequest mark cleared under `not a HelloRetryRequest`" % (fnj.name, lnj), okj, finding=f_)
     res.floor("C06.R1j", 1)
+    rule_R1k(res, prog)
+    rule_R2m(res, prog)
 
     return res.finish()
+
+
+def rule_R1k(res, prog):
+    """'no message accepted twice / out of order' (TLS <= 1.2): the dispatcher admits a message by comparing its type with
+    ssl->hsState, so a parser that returns success WITHOUT moving hsState leaves the same message admissible again (a second
+    ServerKeyExchange overwrites the first one's key material / leaks it).  For every non-hello parser called by
+    parseSSLHandshake: every path from the entry to a success return stores ssl->hsState.  parseServerKeyExchange is a chain
+    of key-exchange arms (`ssl->flags & DHE_KEY_EXCH`, `& PSK_CIPHER`) of which the dispatcher guarantees one: there the
+    search starts at each arm's entry edge."""
+    from sa import cfgutil as cu
+    rid = "C06.R1k"
+    res.rule(rid, "TLS <= 1.2: a handshake message parser that succeeds has moved hsState on every path (no message admissible twice)")
+    disp = prog.by_name.get("parseSSLHandshake")
+    if not disp:
+        raise AnalysisBroken("C06.R1k: parseSSLHandshake vanished")
+    HELLO = {"parseClientHello", "parseServerHello", "parseHelloVerifyRequest"}
+    callees = sorted(set(c.get("fn") for b, ln, c in disp[0].calls()
+                         if (c.get("fn") or "").startswith("parse") and c.get("fn") not in HELLO and c.get("fn") in prog.by_name))
+    arms = [prog.const("SSL_FLAGS_DHE_KEY_EXCH"), prog.const("SSL_FLAGS_PSK_CIPHER")]
+
+    def stores_hs(x):
+        for m in walk(x):
+            if m.get("k") == "bin" and m["op"] == "=":
+                l = strip(m["l"])
+                if l is not None and l.get("k") == "mem" and l.get("f") == "hsState":
+                    return True
+        return False
+    n = 0
+    for name in callees:
+        fn = prog.by_name[name][0]
+        if not any(stores_hs(x) for b in fn.blocks for i, ln, x in cu.block_exprs(b)):
+            continue            # not a state-moving parser (sub-parser of extensions etc.)
+        starts = []
+        if name == "parseServerKeyExchange":
+            for b in fn.blocks:
+                t = b.get("term")
+                if t is None or "c" not in t or len(b["succ"]) != 2:
+                    continue
+                if any(tr and txt in ["(ssl->flags & %d)" % a for a in arms] for (txt, tr, nd) in cu._cond_atoms(t["c"], True)):
+                    if b["succ"][0].get("b") is not None:
+                        starts.append((b["succ"][0]["b"], t.get("ln"), "key-exchange arm at line %s" % t.get("ln")))
+        else:
+            starts.append((fn.entry, None, "entry"))
+        gf = cu.guard_facts(fn)
+        err_rets = set(id(x) for b in fn.blocks for i, ln, x in cu.block_exprs(b) if x.get("k") == "ret" and cu.ret_is_error(gf, b["id"], x))
+        for (sb, sln, what) in starts:
+            n += 1
+            esc = cu.escapes(fn, (sb, None), stores_hs, is_target=lambda x: cu.success_ret(x) and id(x) not in err_rets)
+            f_ = None
+            if esc is not None:
+                f_ = Finding(PROP, rid, fn.name, "message parser succeeds without moving hsState",
+                             "%s:%s %s(): from the %s a path reaches the success return at line %s (via lines %s) without a store to "
+                             "ssl->hsState: the dispatcher still expects this message type, so the peer can send it again and have it accepted "
+                             "(state of the first one overwritten / leaked)" % (fn.relfile, esc[-1][1], fn.name, what, esc[-1][1],
+                                                                              [p_[1] for p_ in esc[-6:]]), file=fn.relfile, line=esc[-1][1])
+            res.instance(rid, "%s: %s -> every success return behind a store to hsState" % (fn.name, what), esc is None, finding=f_)
+    res.floor(rid, 8)
+
+
+def rule_R2m(res, prog):
+    """'the peer's Finished value matches the receiver's own transcript' / CertificateVerify over this handshake's transcript:
+    the reference value handed to parseFinished and parseCertificateVerify is the LOCAL array hsMsgHash of parseSSLHandshake,
+    filled by sslSnapshotHSHash.  Definite initialisation: no path from the function entry reaches either call without the
+    snapshot, except over the edge on which ssl->hsState is not the state that dispatches to that parser.  (The reassembly
+    of a fragmented message re-enters the function and jumps past the header parsing.)"""
+    from sa import cfgutil as cu
+    rid = "C06.R2m"
+    res.rule(rid, "the transcript snapshot compared with Finished / CertificateVerify is taken on every path to the parser (also for a reassembled message)")
+    lst = prog.by_name.get("parseSSLHandshake")
+    if not lst:
+        raise AnalysisBroken("C06.R2m: parseSSLHandshake vanished")
+    fn = lst[0]
+
+    def arg_is_hash(c, var):
+        return any((strip_casts(a) or {}).get("k") == "var" and strip_casts(a).get("n") == var for a in c.get("a", []))
+
+    def strip_casts(a):
+        a = strip(a)
+        while a is not None and a.get("k") == "cast":
+            a = strip(a["e"])
+        return a
+    n = 0
+    for (parser, state) in (("parseFinished", "SSL_HS_FINISHED"), ("parseCertificateVerify", "SSL_HS_CERTIFICATE_VERIFY")):
+        K = prog.const(state)
+        sites = [(b, ln, c) for b, ln, c in fn.calls() if c.get("fn") == parser]
+        for (b, ln, c) in sites:
+            # the array argument
+            hv = None
+            for a in c.get("a", []):
+                a0 = strip_casts(a)
+                if a0 is not None and a0.get("k") == "var" and "[" in (a0.get("t") or ""):
+                    hv = a0["n"]
+            if hv is None:
+                continue
+            n += 1
+
+            def snap(x, hv=hv):
+                return any(m.get("k") == "call" and m.get("fn") == "sslSnapshotHSHash" and arg_is_hash(m, hv) for m in walk(x))
+
+            def other_state(bk, k, K=K):
+                t = bk.get("term")
+                if t is None or "c" not in t or len(bk["succ"]) != 2:
+                    return False
+                return any(txt == "(ssl->hsState == %d)" % K and not tr for (txt, tr, nd) in cu._cond_atoms(t["c"], k == 0))
+            esc = cu.escapes(fn, (fn.entry, None), snap, exempt_edge=other_state,
+                             target_expr=lambda x, c=c: any(m is c for m in walk(x)))
+            f_ = None
+            if esc is not None:
+                f_ = Finding(PROP, rid, fn.name, "transcript reference value used uninitialised",
+                             "%s:%s parseSSLHandshake(): %s(.., %s, ..) is reached (via lines %s) without sslSnapshotHSHash having filled the "
+                             "local array on that path: the peer's %s is checked against stack residue (a message that arrives in "
+                             "two records completes in a later call of this function, which jumps to SKIP_HSHEADER_PARSE)" % (
+                                 fn.relfile, ln, parser, hv, [p_[1] for p_ in esc[-7:]],
+                                 "Finished verify_data" if parser == "parseFinished" else "CertificateVerify signature"), file=fn.relfile, line=ln)
+            res.instance(rid, "parseSSLHandshake:%s %s receives an initialised transcript snapshot on every path" % (ln, parser), esc is None, finding=f_)
+    res.floor(rid, 2)
